@@ -292,7 +292,23 @@ pub fn run<B: Base>(job: &Value, x: &[B], x2: Option<&[B]>) -> (Vec<Rel<B>>, Val
             let a = ig.helmholtz(&st) * st.temperature;
             let ntot = n.iter().fold(B::zero(), |acc, &x| acc + x);
             let cv = -(t * a.v2) / ntot;
-            rels.push(Rel { name: "cv_ig/R".into(), a: cv, b: cv, d: 0 });
+            // spec: the published correlation, mole-fraction averaged: c_v^ig / R = sum_i x_i c_p,i(T) / R - 1
+            // (coefficients and the model's gas constant come from the job description, not from the library)
+            let rgas = job["rgas"].as_f64().expect("rgas");
+            let recs: Vec<Vec<f64>> = job["model"]["syn"].as_array().expect("syn").iter().map(|r| r.as_array().unwrap().iter().map(|x| x.as_f64().unwrap()).collect()).collect();
+            let skip = job["skip"].as_u64().unwrap_or(0) as usize; // DIPPR records carry the equation number first
+            let mut spec = B::zero();
+            for (i, r) in recs.iter().enumerate() {
+                let mut cp = B::zero();
+                let mut tk = B::one();
+                for c in &r[skip..] {
+                    cp = cp + tk * *c;
+                    tk = tk * t;
+                }
+                spec = spec + n[i] / ntot * cp;
+            }
+            let spec = spec / rgas - 1.0;
+            rels.push(Rel { name: "cv_ig/R~correlation".into(), a: spec, b: cv, d: 0 });
         }
         // C10-c: ideal mixing: A_ig(T,V,N) = sum_i A_ig^{pure i}(T,V,N_i)
         "ideal_mix" => {
